@@ -208,7 +208,7 @@ def job_getters(kind):
                 # O3 documented slices
                 ctx.prove(f"{target}::post.occsa-is-first-norba-occupations", same(oa, view(occs, 0, na)))
                 ctx.prove(f"{target}::post.occsb-is-remaining-occupations", same(ob, view(occs, na, norb - na)))
-                ctx.assume(lemmas.split_sum_instance(occs, na, norb))
+                ctx.assume(lemmas.split_sum_instance(occs, na, norb, tail_view=view(occs, na, norb - na)))
                 ctx.assume(lemmas.linear_sum_instance([(1, oa), (-1, view(occs, 0, na))], na))
                 ctx.assume(lemmas.linear_sum_instance([(1, ob), (-1, view(occs, na, norb - na))], norb - na))
                 ctx.assume(lemmas.linear_sum_instance([(1, view(occs, 0, na)), (-1, occs)], na))
